@@ -347,9 +347,20 @@ func runC16(p *P, r *R) {
 		}
 		// the state is entered with the announced epoch
 		okEpoch := false
-		for _, si := range findInstrs(mh, mStoreWord("SessionManager.epoch")) {
-			if isLoadOf(si.(*ssa.Store).Val, "sessionManagerHotRestartParams.epoch") {
-				okEpoch = true
+		cands := []*ssa.Function{mh}
+		allInstrs(mh, func(in ssa.Instruction) {
+			if g := p.localCallee(in); g != nil && !inFns(g, cands) {
+				cands = append(cands, g)
+			}
+		})
+		for _, g := range cands {
+			for _, si := range findInstrs(g, mStoreWord("SessionManager.epoch")) {
+				// in a helper the epoch arrives as a parameter: judged at the helper's call sites
+				for _, v := range p.argsFor(si.(*ssa.Store).Val, g) {
+					if isLoadOf(v, "sessionManagerHotRestartParams.epoch") {
+						okEpoch = true
+					}
+				}
 			}
 		}
 		r.ob("R16.3", "handleSessionManagerHotRestart: the restart adopts the announced epoch", p.pos(mh.Pos()), okEpoch, true, "")
@@ -720,10 +731,19 @@ func c16FreshBookkeeping(p *P, r *R) {
 		return
 	}
 	var resets, reads []ssa.Instruction
+	resetM := M{ID: "reset reservePools", F: func(in ssa.Instruction) bool {
+		st, ok := in.(*ssa.Store)
+		return ok && wordOf(st.Addr) == "SessionManager.reservePools" && isNilConst(st.Val)
+	}}
 	allInstrs(mh, func(in ssa.Instruction) {
 		switch x := in.(type) {
+		case *ssa.Call:
+			// the first-event block split off into a helper that resets the record
+			if g := p.localCallee(x); g != nil && p.may(g, resetM, 2) {
+				resets = append(resets, in)
+			}
 		case *ssa.Store:
-			if wordOf(x.Addr) == "SessionManager.reservePools" && isNilConst(x.Val) {
+			if resetM.F(in) {
 				resets = append(resets, in)
 			}
 		case *ssa.Lookup:
